@@ -66,7 +66,7 @@ NA = {
  "C15": "not built: board keywords (layers/scenarios/steps) need keyword templates; harness not written",
  "C17": "not applicable: dagre and ELK run as JavaScript inside goja; the interpreter loop over a JS program cannot be encoded for the solver within reach; the Go->JS ID bridge (escapeID) uses regexp, whose automaton construction the engine does not execute symbolically in reasonable time",
  "C18": "not built: layout orchestration with a stubbed core layout was planned (tier 3) and not reached",
- "C19": "not applicable for dagre/ELK (JavaScript); nested-graph sizing kernel not built",
+ "C19": "not applicable: containment and non-overlap after layout are the output of the JavaScript engines (dagre/ELK in goja), which the solver cannot reach; the Go parts that place special diagrams are covered by C22 (grid cells), C24 (near objects) and C18 (structure)",
  "C20": "not applicable: connection routes come from the JavaScript engines and transcendental float tracing",
  "C21": "not built: float geometry harness (dyadic lowering exists in the engine) not written/validated in time",
  "C22": "not built: grid layout float harness not written/validated in time",
